@@ -80,6 +80,8 @@ FINDINGS = [
                      [{"passes": 4, "ar": {"A0": [2]}}], "list literal assigned inside the main loop (leaked 12+ bytes per pass)", placement="loop")]),
     dict(id="KF-C03-stale-constants", property="C03", status="fixed", commit="e2c78a7",
          what="len(name) / flash_pattern(name) / glyph(slot, name) and list bookkeeping were folded from a flow-insensitive environment: stale after a re-binding or list mutation inside if/while/for/try, the main loop or a helper; unsound list mirror for run-time elements", cases=[]),
+    dict(id="KF-C03-shared-lists-and-helper-globals", property="C03", status="fixed", commit="9f359f9",
+         what="tracked list values were shared by reference between sibling branch scopes (a mirrored append/remove in one arm changed the fold in another), and globals re-bound/mutated by a helper were still folded as constants by its callers", cases=[]),
     # ---------------------------------------------------------------- open
     dict(id="KF-C06-named-exception", property="C06", status="open", commit=None,
          what="'except Exception:' is emitted as 'catch (Exception &)' although no such type exists in the sketch (does not compile; the project's own test pins this text)",
